@@ -228,11 +228,17 @@ func c03Cases() []c03Case {
 	var out []c03Case
 	for _, v := range c03Variants() {
 		for _, par := range []bool{false, true} {
-			poss := []string{"alone", "first", "last"}
+			poss := []string{"alone", "first", "last", "at-1-of-3"}
 			if par {
 				// parallel proof checking splits the block into up to 5 groups, the last one taking
-				// the remainder: positions in the remainder and on group boundaries of longer blocks
-				poss = append(poss, "at-5-of-7", "at-6-of-7", "at-10-of-11", "at-4-of-6", "at-8-of-9")
+				// the remainder: EVERY position of blocks of 2..7 and 9..11 transactions (first, middle
+				// and last group; first, inner and last member of a group; the remainder)
+				poss = []string{"alone", "first", "last"}
+				for _, n := range []int{2, 3, 4, 5, 6, 7, 9, 10, 11} {
+					for i := 0; i < n; i++ {
+						poss = append(poss, fmt.Sprintf("at-%d-of-%d", i, n))
+					}
+				}
 			}
 			for _, pos := range poss {
 				c := v
@@ -397,7 +403,7 @@ func init() {
 	Registry["C03"] = func(c *mc.Ctx) {
 		c.RunSharded("c03")
 		c.Set("distinct_nontrivial", c.Get("unverified_ibtps"))
-		c.Set("rule", "product of 40 (origin, rule, proof) variants (incl. a master-rule update of the destination chain, rejected or approved, before the receipt) — local request under an accept-all rule / a rule that errors / a deployed WASM rule answering plain true or false, receipts checked against the destination chain's rule, unregistered and logged-out origins, remote BitXHub with 0..4 distinct registered signers, duplicates, unregistered signers, signatures over another status or IBTP, garbage proof bytes — x block position {alone, first, last; in parallel mode also the remainder / group-boundary positions 5,6 of 7, 10 of 11, 4 of 6, 8 of 9} x proof checking {serial, parallel}; each decided differentially (block with / without the IBTP); plus all sequences of <=2 direct invocations of the interchain contract's IBTP-handling entry points by an outsider (before and after a valid request; audit off/on); non-trivial = proof not satisfying the predicate")
+		c.Set("rule", "product of 40 (origin, rule, proof) variants (incl. a master-rule update of the destination chain, rejected or approved, before the receipt) — local request under an accept-all rule / a rule that errors / a deployed WASM rule answering plain true or false, receipts checked against the destination chain's rule, unregistered and logged-out origins, remote BitXHub with 0..4 distinct registered signers, duplicates, unregistered signers, signatures over another status or IBTP, garbage proof bytes — x block position {alone, first, last; middle of 3; in parallel mode every position of blocks of 2..7 and 9..11 transactions} x proof checking {serial, parallel}; each decided differentially (block with / without the IBTP); plus all sequences of <=2 direct invocations of the interchain contract's IBTP-handling entry points by an outsider (before and after a valid request; audit off/on); non-trivial = proof not satisfying the predicate")
 		c.Assume("the WASM rule is assembled from WAT with wasmtime's own assembler (start_verify returns proof[0]=='T'); SimFabric built-in rule stands for 'rule returns error'")
 		if c.Get("unverified_ibtps") == 0 || c.Get("verified_ibtps") == 0 {
 			c.HarnessError("vacuous")
